@@ -146,7 +146,7 @@ package receiver
 //@ func (*receiver.Transfer).deleteFiles$1
 //@   results ret
 //@   requires [sorted] sortedByName(fileList)
-//@   modifies ghost.removed, rsyncos.Env.logger
+//@   modifies ghost.removed, rsyncos.Env.logger, rsyncwire.CountingWriter.BytesWritten
 //@   ensures[C09] [walk-error-passed-on] err != nil ==> ret == err && ghost.removed == old(ghost.removed)
 //@   ensures[C09] [listed-kept] err == nil && inList(fileList, path) ==> ret == nil && ghost.removed == old(ghost.removed)
 //@   ensures[C09] [dry-run-keeps] rt.Opts.DryRun ==> ghost.removed == old(ghost.removed)
@@ -155,7 +155,7 @@ package receiver
 
 //@ func (*receiver.Transfer).deleteFiles
 //@   requires [sorted] sortedByName(fileList)
-//@   modifies ghost.removed, rsyncos.Env.logger
+//@   modifies ghost.removed, rsyncos.Env.logger, rsyncwire.CountingWriter.BytesWritten
 //@   ensures[C09] [io-errors-delete-nothing] rt.IOErrors > 0 ==> ghost.removed == old(ghost.removed)
 
 //@ func (*receiver.Transfer).ReceiveFileList
